@@ -21,7 +21,12 @@ EXPLANATION = (
     "only when no other sliced index remains on the term, and nobody else writes it; "
     "(MULT) the factor remove_ind multiplies into the slice count is the size it "
     "records in SliceInfo, and restore_ind divides by that recorded size. The "
-    "stride/stack arithmetic is runtime and not decided."
+    "stride/stack arithmetic is runtime and not decided. "
+    "Later rounds added: "
+    "(COVER) every enumeration of slice numbers covers 0..nslices-1 exactly once (partial "
+    "evaluation); (FRESHCHUNK) every yielded chunk owns its storage; (RADIX) strides are "
+    "products of the later recorded sizes, digits are floor-division with the remainder "
+    "carried, projected indices consume no digit. "
 )
 ASSUMPTIONS = ("dict preserves insertion order; dataclass(order=True) compares fields in "
                "declaration order",)
